@@ -552,6 +552,85 @@ out:
     g_b_gone = 1;
 }
 
+/* ---- mode=ctmo: an accepted tcp.connect_timeout governs the attempt --------------------------------- */
+static int g_ct_when, g_ct_val;
+static const double CT_VALS[2] = { 0.5, 1.5 };
+
+static void task_ctmo(void *arg)
+{
+    (void)arg;
+    char sig[200];
+    struct endp *e = &A;
+    double want = 3.0;                   /* documented default */
+    struct xcm_attr_map *m = base_map();
+    xcm_attr_map_add_double(m, "dns.timeout", 0.25);   /* fewer resolver timer expiries to order against the answer */
+    if (g_ct_when == 0) {
+        xcm_attr_map_add_double(m, "tcp.connect_timeout", CT_VALS[g_ct_val]);
+        want = CT_VALS[g_ct_val];
+    }
+    mc_sched_point("connect");
+    e->s = API("xcm_connect_a", 1, xcm_connect_a(g_caddr, m));
+    xcm_attr_map_destroy(m);
+    if (!e->s) {
+        V("C11/creation-map-refused/tcp.connect_timeout", "xcm_connect_a(%s) with tcp.connect_timeout in the map failed: %s",
+          g_caddr, errname(errno));
+        return;
+    }
+    e->fd0 = xcm_fd(e->s);
+    if (g_ct_when == 1) {
+        /* while the name is being resolved: the library either refuses the set (EACCES: then the old value
+           governs) or accepts it - and then it must be the accepted value that governs the attempt */
+        mc_sched_point("attr_set");
+        int rc = API("xcm_attr_set", 1, xcm_attr_set_double(e->s, "tcp.connect_timeout", CT_VALS[g_ct_val]));
+        mc_observe("A set tcp.connect_timeout=%g while resolving -> %d %s", CT_VALS[g_ct_val], rc, rc < 0 ? errname(errno) : "");
+        if (rc == 0)
+            want = CT_VALS[g_ct_val];
+    }
+    struct val g;
+    if (get_val(e->s, "tcp.connect_timeout", &g) < 0 || g.d != want) {
+        snprintf(sig, sizeof sig, "C11/get-differs-from-set/tcp.connect_timeout/at=%s/tp=%s", g_ct_when ? "resolving" : "creation-map", g_tp);
+        V(sig, "tcp.connect_timeout reads %g, the last accepted value is %g", g.d, want);
+    }
+    int64_t t_attempt = -1;
+    for (;;) {
+        if (t_attempt < 0 && env_connect_log_count() > 0)
+            t_attempt = env_now_ns();
+        mc_sched_point("finish");
+        int rc = API("xcm_finish", 1, xcm_finish(e->s));
+        int err = rc < 0 ? errno : 0;
+        if (t_attempt < 0 && env_connect_log_count() > 0)
+            t_attempt = env_now_ns();
+        if (rc == 0) {
+            V("C11/ctmo-connected", "connect to a silent address succeeded");
+            break;
+        }
+        if (err != EAGAIN) {
+            int64_t el = env_now_ns() - t_attempt;
+            mc_observe("A attempt given up with %s after %lld ms of virtual time", errname(err), (long long)(el / 1000000));
+            mc_count(2, 1);
+            /* the timer is exact in virtual time; a late service of the wake-up only adds the other timers' ticks */
+            if (t_attempt >= 0 && err == ETIMEDOUT && (el < (int64_t)(want * 1e9) || el > (int64_t)(want * 1e9) + 300000000LL)) {
+                snprintf(sig, sizeof sig, "C11/connect-timeout-not-governing/set-at=%s/tp=%s", g_ct_when ? "resolving" : "creation-map", g_tp);
+                V(sig, "tcp.connect_timeout=%g s was accepted (and is what xcm_attr_get reports), but the attempt to a silent "
+                  "address was given up after %lld ms", want, (long long)(el / 1000000));
+            } else if (err == ENOENT && t_attempt < 0) {
+                /* the environment withheld the resolver's answer beyond dns.timeout: no attempt was ever made */
+            } else if (err != ETIMEDOUT) {
+                snprintf(sig, sizeof sig, "C11/ctmo-wrong-errno/%s/tp=%s", errname(err), g_tp);
+                V(sig, "attempt to a silent address ended with %s", errname(err));
+            }
+            break;
+        }
+        mc_set_progress(0);
+        if (wait_fd(e, 0, "ctmo") < 0)
+            break;
+    }
+    mc_sched_point("close");
+    API("xcm_close", 1, xcm_close(e->s));
+    e->s = NULL;
+    g_a_done = 1;
+}
+
 /* ---- mode=static ------------------------------------------------------------------------------------ */
 static int g_cells;
 
@@ -1029,6 +1108,19 @@ static void scenario(const char *params)
     mc_set_state_fn(state_digest);
     static const char *ips[] = { "127.0.0.1" };
     env_dns_set("eff.verif.test", ips, 1, ENV_DNS_LATE);
+    if (!strcmp(g_mode, "ctmo")) {
+        /* a silent destination: the only way out of the attempt is tcp.connect_timeout */
+        g_ct_when = mc_choose_mask(2, MC_SCHED, "ctmo-when", 0);
+        g_ct_val = mc_choose_mask(2, MC_SCHED, "ctmo-val", 0);
+        env_policy_set("127.0.0.1", ENV_SILENT);
+        snprintf(g_caddr, sizeof g_caddr, "%s:eff.verif.test:%d", !strcmp(g_tp, "utlstls") ? "utls" : g_tp, g_port);
+        mc_task_create("A", task_ctmo, NULL);
+        enum mc_end end = mc_run((int)param_int(params, "horizon", 4000));
+        if (end != MC_END_DONE)
+            mc_violation("C11/ctmo-never-resolved", "end=%d: the attempt to a silent address never ended (no ETIMEDOUT)", end);
+        mc_outcome("ctmo when=%d val=%g end=%d", g_ct_when, CT_VALS[g_ct_val], end);
+        return;
+    }
     const char *wire_tp = !strcmp(g_tp, "utlstls") ? "tls" : g_tp;
     snprintf(g_addr, sizeof g_addr, "%s:127.0.0.1:%d", wire_tp, g_port);
     snprintf(g_caddr, sizeof g_caddr, "%s:eff.verif.test:%d", !strcmp(g_tp, "utlstls") ? "utls" : g_tp, g_port);
